@@ -3,7 +3,7 @@
 // everything for the Lean oracle (lean/Oracle/C14.lean), one case after another:
 //
 //	C <id> <n>
-//	G <name> <qubit index>... [A=<float64 bits of float64(float32(angle))>]
+//	G <name> <qubit index>... [A=<float64 bits of float64(float32(angle))> T=<angle text>]
 //	M <k> <dim> <nnz> (<i> <j> <reBits> <imBits>)*      k-th returned matrix, non-zero entries
 //	P <dim> <nnz> (...)                                  M_last*...*M_0 by MatrixProductComplex
 //	S <k> <nnz> (<i> <reBits> <imBits>)*                 simulation output for basis state k
@@ -109,7 +109,7 @@ func runCase(tag string, n int, gs []gate) {
 		}
 		if g.angle != "" {
 			f, _ := strconv.ParseFloat(g.angle, 32)
-			s += " A=" + strconv.FormatUint(math.Float64bits(float64(float32(f))), 10)
+			s += " A=" + strconv.FormatUint(math.Float64bits(float64(float32(f))), 10) + " T=" + g.angle
 		}
 		out.Line("%s", s)
 	}
